@@ -192,6 +192,14 @@ class PartProcessor(PartHandler, Maintainable):
 
     def _shutdown(self, is_failure, lost_part):
         if self._is_shut_down:
+            if is_failure:
+                # Failure while already shut down: events paused by the
+                # shutdown (e.g. the cycle timer of the Part that was
+                # just lost) must not resume and the failure still has
+                # to be reported.
+                self._env.cancel_matching_events(asset_id = self.id)
+                for c in self._shutdown_callbacks:
+                    c(self, is_failure, lost_part)
             return
         self._is_shut_down = True
         if is_failure:
